@@ -225,6 +225,9 @@ func init() {
 				for i := 0; i < nreuse; i++ {
 					cs = append(cs, fw.Case{ID: fmt.Sprintf("reuse/%d", i), Kind: "reuse", P: map[string]any{"i": i}})
 				}
+				for i := 0; i < nreuse; i++ {
+					cs = append(cs, fw.Case{ID: fmt.Sprintf("twochips/%d", i), Kind: "twochips", P: map[string]any{"i": i}})
+				}
 				for nch := 1; nch <= 3; nch++ {
 					for qdf := 1; qdf <= 8; qdf++ {
 						routeds := []int{2, 3, 7, 8, 16, 24, 80}
@@ -256,6 +259,9 @@ func init() {
 				r := ctx.Rand(c.ID)
 				if c.Kind == "reuse" {
 					return c16Reuse(ctx, c)
+				}
+				if c.Kind == "twochips" {
+					return c16TwoChips(ctx, c)
 				}
 				var s plonkShape
 				if c.Kind == "real" {
@@ -336,6 +342,66 @@ func init() {
 			},
 		}
 	})
+}
+
+// c16TwoChips: several PlonkChips with DIFFERENT circuit descriptions built in one circuit
+// (a wrapper verifying proofs of two inner circuits does exactly that): each chip must use
+// its own description, whatever was built before on the same api.
+func c16TwoChips(ctx *fw.Ctx, c fw.Case) fw.Outcome {
+	var o fw.Outcome
+	r := ctx.Rand(c.ID)
+	n := 2 + r.Intn(2)
+	var shapes []plonkShape
+	var insts []*plonkInstance
+	for len(insts) < n {
+		s := synthShape(r, 2+r.Intn(30), 1+r.Intn(8), 1+r.Intn(3))
+		if len(insts) == 1 && c.Int("i")%3 == 0 {
+			// same shape as the first one except for one coset shift
+			s = shapes[0]
+			s.KIs = append([]uint64(nil), s.KIs...)
+			k := r.Intn(len(s.KIs))
+			s.KIs[k] = ref.Add(s.KIs[k], 1)
+		}
+		pi, _, ok := solveInstance(r, s)
+		if ok {
+			shapes = append(shapes, s)
+			insts = append(insts, pi)
+		}
+	}
+	brokenAt := -1
+	if c.Int("i")%2 == 1 {
+		brokenAt = r.Intn(n)
+		q := insts[brokenAt]
+		k := r.Intn(len(q.Open.PlonkSigmas))
+		q.Open.PlonkSigmas[k][r.Intn(2)] = ref.Add(q.Open.PlonkSigmas[k][0], 1+uint64(r.Intn(9)))
+		rv, zpn, _ := refVanishing(shapes[brokenAt], q)
+		if ref.PlonkCheck(ref.PlonkShape{NumChallenges: shapes[brokenAt].NumChallenges, QuotientDegreeFactor: shapes[brokenAt].QDF}, rv, zpn, q.Open.QuotientPolys) {
+			return fw.Outcome{Trivial: true}
+		}
+	}
+	res := harnRunOpt(engine.Options{Face: engine.Native}, func(api frontend.API) error {
+		for i, pi := range insts {
+			chip := plonk.NewPlonkChip(api, shapes[i].common())
+			oset := variables.OpeningSet{Constants: qes(pi.Open.Constants), PlonkSigmas: qes(pi.Open.PlonkSigmas), Wires: qes(pi.Open.Wires), PlonkZs: qes(pi.Open.PlonkZs), PlonkZsNext: qes(pi.Open.PlonkZsNext), PartialProducts: qes(pi.Open.PartialProducts), QuotientPolys: qes(pi.Open.QuotientPolys)}
+			ch := variables.ProofChallenges{PlonkBetas: gls(pi.Betas), PlonkGammas: gls(pi.Gammas), PlonkAlphas: gls(pi.Alphas), PlonkZeta: qeConst(pi.Zeta)}
+			h := poseidon.GoldilocksHashOut{gl.NewVariable(pi.PIH[0]), gl.NewVariable(pi.PIH[1]), gl.NewVariable(pi.PIH[2]), gl.NewVariable(pi.PIH[3])}
+			chip.Verify(ch, oset, h)
+		}
+		return nil
+	})
+	o.Events += events(res)
+	if io, bad := inconclusiveIf(res); bad {
+		return io
+	}
+	if brokenAt < 0 && res.Verdict != engine.Accept {
+		return fw.Violate("second_chip_rejects_valid_identity", fmt.Sprintf("case %s: %d chips with their own descriptions in one circuit, all identities valid: %s %s", c.ID, n, resStr(res), res.Msg))
+	}
+	if brokenAt >= 0 && res.Verdict == engine.Accept {
+		return fw.Violate("second_chip_accepts_broken_identity", fmt.Sprintf("case %s: chip #%d of %d was given a broken identity and the circuit accepted", c.ID, brokenAt, n))
+	}
+	o.Inc("multi_chip_circuits")
+	o.Sample = map[string]any{"chips_in_one_circuit": n, "broken_at": brokenAt}
+	return o
 }
 
 // c16Reuse: one PlonkChip verifies several instances in sequence inside one circuit (a
